@@ -13,11 +13,16 @@ condition:
   lexer's registers can produce;
 * the VM's fixed arrays: an out-of-range index is always the recovered error;
 * native nesting of `vm.eval`: for every sequence of calls, callbacks of builtins, host calls,
-  imports and deferred calls and for every stack limit, the frame array keeps the nesting
-  below `maxFrames` + the number of deferred-call stages open at once (`C03_partial_native`,
-  `native_bounded_by_frames`); recursion through `defer` alone passes every limit (the finding:
-  `pure_defer_recursion_kills`, `C03_counterexample_native`); every way of entering compiled
-  code needs the bound (`each_reentry_needs_bound`);
+  imports and deferred calls, the frame array and the call depth of `callFunction` keep the
+  nesting below `2 * maxFrames` — no such sequence ends the process on a stack that holds that
+  many activations (`C03_partial_native`, `C03_native_never_killed`, `nest_contained` — unguarded
+  since the repair of `C03-defer-recursion-stack-overflow`; `native_bounded_by_frames`,
+  `nest_peak_bound` for the finer bounds); recursion through `defer` alone ends with a returned
+  error (`pure_defer_recursion_fails`); the repair changes nothing for nesting that grows the
+  frame index (`repair_unchanged_without_defer_stages`); the pre-fix machine and its defect are
+  kept as `preFixNestRun`, `C03_fixed_pure_defer_recursion_killed`,
+  `C03_fixed_native_was_unbounded`, `C03_preFix_partial_native`; every way of entering compiled
+  code needs one of the two bounds (`each_reentry_needs_bound`);
 * the importer's mutex: every sequence of `Import` calls, whatever the module files contain at
   the time of each call, returns what the mutex-free Spec returns and leaves the mutex free
   (`import_never_fatal`, for every balanced assignment of mutex events to the paths:
@@ -324,36 +329,168 @@ example : enterImpl .thread (.panics "x") = .error "panic: x" := by decide
 example : enterImpl .run .returns = .value := by decide
 example : requiredRecovers.all (requiredRecovers.contains ·) = true := by decide
 
-/-! ## Native nesting of `vm.eval`: the frame array bounds it — except through `defer` -/
+/-! ## Native nesting of `vm.eval`: bounded by the frame array and by the call depth -/
 
-/-- one step keeps `native ≤ fp + opened` and `fp < maxFrames` -/
+/-- the part of the invariant that both machines (repaired and pre-fix) keep: every native
+    activation holds a frame or is a `callFunction` in its deferred-call stage, and the frame
+    index is inside the array -/
+def Nest.Framed (s : Nest) : Prop := s.native ≤ s.fp + s.opened ∧ s.fp < maxFrames
+
+/-- the invariant of the repaired machine: `Framed`, every deferred-call stage belongs to an
+    open `callFunction`, and at most `maxCalls` of those are open -/
+def Nest.Inv (s : Nest) : Prop := s.Framed ∧ s.opened ≤ s.calls ∧ s.calls ≤ maxCalls
+
+theorem Nest.init_inv : Nest.init.Inv := by
+  unfold Nest.Inv Nest.Framed Nest.init maxFrames maxCalls maxFrames; simp
+
+/-- one step keeps `native ≤ fp + opened` and `fp < maxFrames`, with or without the depth test -/
+theorem nestStepG_framed (checked : Bool) (limit : Nat) (s s' : Nest) (o : NOp)
+    (hi : s.Framed) (h : nestStepG allBounded checked limit s o = .ok s') : s'.Framed := by
+  obtain ⟨hi, hf⟩ := hi
+  unfold Nest.Framed
+  cases o with
+  | enter r =>
+    simp only [nestStepG, allBounded, Bool.true_and] at h
+    split at h
+    · cases h
+    · by_cases c : s.fp + 1 < maxFrames
+      · simp only [c, decide_true, Bool.not_true] at h
+        by_cases c2 : s.native + 1 ≤ limit
+        · simp only [c2, if_true] at h
+          simp at h
+          subst h
+          exact ⟨by simp only; omega, c⟩
+        · simp [c2] at h
+      · simp [c] at h
+  | leave =>
+    simp only [nestStepG] at h
+    split at h <;> cases h
+    · exact ⟨by simp only; omega, by simp only; omega⟩
+    · exact ⟨hi, hf⟩
+  | exitDefers =>
+    simp only [nestStepG] at h
+    split at h <;> cases h
+    · exact ⟨by simp only; omega, by simp only; omega⟩
+    · exact ⟨hi, hf⟩
+  | defersDone =>
+    simp only [nestStepG] at h
+    split at h <;> cases h
+    · exact ⟨by simp only; omega, by simp only; omega⟩
+    · exact ⟨hi, hf⟩
+  | leaveMod =>
+    simp only [nestStepG] at h
+    split at h <;> cases h
+    · exact ⟨by simp only; omega, by simp only; omega⟩
+    · exact ⟨hi, hf⟩
+
+/-- one step of the repaired machine keeps the whole invariant: a `callFunction` activation is
+    added only while fewer than `maxCalls` are open -/
 theorem nestStep_inv (limit : Nat) (s s' : Nest) (o : NOp)
-    (hi : s.native ≤ s.fp + s.opened) (hf : s.fp < maxFrames) (h : nestStep limit s o = .ok s') :
-    s'.native ≤ s'.fp + s'.opened ∧ s'.fp < maxFrames := by
+    (hi : s.Inv) (h : nestStep limit s o = .ok s') : s'.Inv := by
+  obtain ⟨hfr, ho, hc⟩ := hi
+  refine ⟨nestStepG_framed true limit s s' o hfr h, ?_⟩
   cases o with
   | enter r =>
     simp only [nestStep, nestStepG, allBounded, Bool.true_and] at h
-    by_cases c : s.fp + 1 < maxFrames
-    · simp only [c, decide_true, Bool.not_true] at h
-      by_cases c2 : s.native + 1 ≤ limit
-      · simp only [c2, if_true] at h
-        simp at h
-        subst h
-        exact ⟨by simp only; omega, c⟩
-      · simp [c2] at h
-    · simp [c] at h
+    split at h
+    · cases h
+    · rename_i hchk
+      split at h
+      · cases h
+      · split at h
+        · cases h
+          cases hv : r.viaCallFunction
+          · exact ⟨ho, hc⟩
+          · simp only [hv, Bool.true_and, decide_eq_true_eq] at hchk
+            simp only [if_true]
+            exact ⟨by omega, by omega⟩
+        · cases h
   | leave =>
     simp only [nestStep, nestStepG] at h
-    cases h
-    exact ⟨by simp only; omega, by simp only; omega⟩
+    split at h <;> cases h
+    · exact ⟨by simp only; omega, by simp only; omega⟩
+    · exact ⟨ho, hc⟩
   | exitDefers =>
     simp only [nestStep, nestStepG] at h
-    cases h
-    exact ⟨by simp only; omega, by simp only; omega⟩
+    split at h <;> cases h
+    · exact ⟨by simp only; omega, hc⟩
+    · exact ⟨ho, hc⟩
   | defersDone =>
     simp only [nestStep, nestStepG] at h
-    cases h
-    exact ⟨by simp only; omega, by simp only; omega⟩
+    split at h <;> cases h
+    · exact ⟨by simp only; omega, by simp only; omega⟩
+    · exact ⟨ho, hc⟩
+  | leaveMod =>
+    simp only [nestStep, nestStepG] at h
+    split at h <;> cases h
+    · exact ⟨ho, hc⟩
+    · exact ⟨ho, hc⟩
+
+/-- **`C03_partial_native` (unguarded since the repair of `C03-defer-recursion-stack-overflow`)**:
+    for EVERY sequence of re-entries, exits and deferred-call stages (any length, any mix of the
+    five ways compiled code is entered, deferred calls included), from every state that satisfies
+    the invariant, and for EVERY native stack that holds `2 * maxFrames` activations of `vm.eval`
+    (at most `maxFrames - 1` frames in use plus at most `maxCalls = maxFrames` open
+    `callFunction` activations in their deferred-call stage), the run is never killed.  It stays
+    inside the two bounds, or stops with the recoverable index panic or the returned
+    `max call depth exceeded` error. -/
+theorem C03_partial_native (limit : Nat) (hl : 2 * maxFrames ≤ limit) (ops : List NOp) :
+    ∀ s : Nest, s.Inv → ∀ w, nestRun limit s ops ≠ .killed w := by
+  induction ops with
+  | nil => intro s _ w h; simp [nestRun, nestRunG] at h
+  | cons o r ih =>
+    intro s hi w
+    show nestRunG allBounded true limit s (o :: r) ≠ .killed w
+    simp only [nestRunG]
+    have hstep : nestStepG allBounded true limit s o = nestStep limit s o := rfl
+    cases hs : nestStepG allBounded true limit s o with
+    | ok s' =>
+      simp only
+      exact ih s' (nestStep_inv limit s s' o hi (hstep ▸ hs)) w
+    | recovered w' => simp
+    | failed w' => simp
+    | killed w' =>
+      exfalso
+      obtain ⟨⟨h1, h2⟩, h3, h4⟩ := hi
+      cases o with
+      | enter q =>
+        simp only [nestStepG, allBounded, Bool.true_and] at hs
+        split at hs
+        · cases hs
+        · by_cases c : s.fp + 1 < maxFrames
+          · simp only [c, decide_true, Bool.not_true] at hs
+            have c2 : s.native + 1 ≤ limit := by unfold maxCalls at h4; omega
+            simp [c2] at hs
+          · simp [c] at hs
+      | leave => simp only [nestStepG] at hs; split at hs <;> cases hs
+      | exitDefers => simp only [nestStepG] at hs; split at hs <;> cases hs
+      | defersDone => simp only [nestStepG] at hs; split at hs <;> cases hs
+      | leaveMod => simp only [nestStepG] at hs; split at hs <;> cases hs
+
+/-- FULL statement: some finite goroutine stack is enough for every sequence. -/
+def C03_full_native : Prop :=
+  ∃ limit, ∀ (ops : List NOp) (w : String), nestRun limit Nest.init ops ≠ .killed w
+
+/-- **The full statement holds** (it was false before the repair:
+    `C03_fixed_native_was_unbounded`): a stack of `2 * maxFrames` activations is enough for
+    everything a script can do. -/
+theorem C03_native_never_killed : C03_full_native :=
+  ⟨2 * maxFrames, fun ops w => C03_partial_native _ (Nat.le_refl _) ops Nest.init Nest.init_inv w⟩
+
+/-- … and under every entry point, with the three recover scopes, every run is a value or an
+    error for the host — never the death of the process (no guard on the sequence). -/
+theorem nest_contained (limit : Nat) (hl : 2 * maxFrames ≤ limit) (ops : List NOp) (e : Entry) :
+    (enterNest requiredRecovers e (nestRun limit Nest.init ops)).isKilled = false := by
+  have h := C03_partial_native limit hl ops Nest.init Nest.init_inv
+  cases hr : nestRun limit Nest.init ops with
+  | ok s => rfl
+  | recovered w =>
+    simp only [enterNest]
+    exact enter_not_killed requiredRecovers (by decide) e (.panics w)
+  | failed w => rfl
+  | killed w => exact absurd hr (h w)
+
+/-! ### the finer bound by the number of deferred-call stages (both machines) -/
 
 theorem peakOpen_ge (ops : List NOp) : ∀ o, o ≤ peakOpen o ops := by
   induction ops with
@@ -362,64 +499,99 @@ theorem peakOpen_ge (ops : List NOp) : ∀ o, o ≤ peakOpen o ops := by
     intro o
     cases op <;> simp only [peakOpen] <;> exact Nat.le_max_left _ _
 
-/-- the `opened` counter after a step is what `peakOpen` continues with -/
-theorem peakOpen_step (limit : Nat) (s s' : Nest) (o : NOp) (r : List NOp)
-    (h : nestStep limit s o = .ok s') : peakOpen s'.opened r ≤ peakOpen s.opened (o :: r) := by
+theorem peakOpen_mono (ops : List NOp) : ∀ o o', o ≤ o' → peakOpen o ops ≤ peakOpen o' ops := by
+  induction ops with
+  | nil => intro o o' h; exact h
+  | cons op r ih =>
+    intro o o' h
+    cases op with
+    | exitDefers =>
+      simp only [peakOpen]
+      have := ih (o + 1) (o' + 1) (by omega)
+      omega
+    | defersDone =>
+      simp only [peakOpen]
+      have := ih (o - 1) (o' - 1) (by omega)
+      omega
+    | enter q => simp only [peakOpen]; have := ih o o' h; omega
+    | leave => simp only [peakOpen]; have := ih o o' h; omega
+    | leaveMod => simp only [peakOpen]; have := ih o o' h; omega
+
+/-- the `opened` counter after a step is at most what `peakOpen` continues with -/
+theorem peakOpen_step (checked : Bool) (limit : Nat) (s s' : Nest) (o : NOp) (r : List NOp)
+    (h : nestStepG allBounded checked limit s o = .ok s') :
+    peakOpen s'.opened r ≤ peakOpen s.opened (o :: r) := by
   cases o with
   | enter q =>
-    simp only [nestStep, nestStepG] at h
+    simp only [nestStepG] at h
     split at h
     · cases h
     · split at h
-      · cases h; simp only [peakOpen]; exact Nat.le_max_right _ _
       · cases h
+      · split at h
+        · cases h; simp only [peakOpen]; exact Nat.le_max_right _ _
+        · cases h
   | leave =>
-    simp only [nestStep, nestStepG] at h
-    cases h; simp only [peakOpen]; exact Nat.le_max_right _ _
+    simp only [nestStepG] at h
+    split at h <;> cases h <;> (simp only [peakOpen]; exact Nat.le_max_right _ _)
   | exitDefers =>
-    simp only [nestStep, nestStepG] at h
-    cases h; simp only [peakOpen]; exact Nat.le_max_right _ _
+    simp only [nestStepG] at h
+    split at h <;> cases h
+    · simp only [peakOpen]; exact Nat.le_max_right _ _
+    · simp only [peakOpen]
+      have := peakOpen_mono r s.opened (s.opened + 1) (by omega)
+      omega
   | defersDone =>
-    simp only [nestStep, nestStepG] at h
-    cases h; simp only [peakOpen]; exact Nat.le_max_right _ _
+    simp only [nestStepG] at h
+    split at h <;> cases h
+    · simp only [peakOpen]; exact Nat.le_max_right _ _
+    · rename_i hz
+      have hz' : s.opened = 0 := by omega
+      simp only [peakOpen, hz']
+      exact Nat.le_max_right _ _
+  | leaveMod =>
+    simp only [nestStepG] at h
+    split at h <;> cases h <;> (simp only [peakOpen]; exact Nat.le_max_right _ _)
 
-/-- **PARTIAL (`native_nesting_bounded`)**: for EVERY sequence of re-entries, exits and
-    deferred-call stages (any length, any mix of the five ways compiled code is entered), from
-    every state that satisfies the invariant, and for EVERY stack limit: if the limit holds
+/-- for EVERY sequence, from every framed state, on either machine: if the stack holds
     `maxFrames` activations plus as many as deferred-call stages are ever open at once
-    (`peakOpen`, the guard — a decidable function of the sequence), the run is never killed.
-    It stays inside the frame array or stops with the recoverable index panic. -/
-theorem C03_partial_native (limit : Nat) (ops : List NOp) :
-    ∀ s : Nest, s.native ≤ s.fp + s.opened → s.fp < maxFrames →
-      peakOpen s.opened ops + maxFrames ≤ limit → ∀ w, nestRun limit s ops ≠ .killed w := by
+    (`peakOpen`, a decidable function of the sequence), the run is never killed.  This was the
+    strongest true statement before the repair (`C03_preFix_partial_native`); on the repaired
+    machine it is a finer bound than `C03_partial_native` for sequences with few stages. -/
+theorem nest_peak_bound (checked : Bool) (limit : Nat) (ops : List NOp) :
+    ∀ s : Nest, s.Framed → peakOpen s.opened ops + maxFrames ≤ limit →
+      ∀ w, nestRunG allBounded checked limit s ops ≠ .killed w := by
   induction ops with
-  | nil => intro s _ _ _ w h; simp [nestRun, nestRunG] at h
+  | nil => intro s _ _ w h; simp [nestRunG] at h
   | cons o r ih =>
-    intro s hi hf hp w
-    show nestRunG allBounded limit s (o :: r) ≠ .killed w
+    intro s hi hp w
     simp only [nestRunG]
-    have hstep : nestStepG allBounded limit s o = nestStep limit s o := rfl
-    cases hs : nestStepG allBounded limit s o with
+    cases hs : nestStepG allBounded checked limit s o with
     | ok s' =>
       simp only
-      have hinv := nestStep_inv limit s s' o hi hf (hstep ▸ hs)
-      have hpk := peakOpen_step limit s s' o r (hstep ▸ hs)
-      exact ih s' hinv.1 hinv.2 (by omega) w
+      have hinv := nestStepG_framed checked limit s s' o hi hs
+      have hpk := peakOpen_step checked limit s s' o r hs
+      exact ih s' hinv (by omega) w
     | recovered w' => simp
+    | failed w' => simp
     | killed w' =>
       exfalso
       have hge := peakOpen_ge (o :: r) s.opened
+      obtain ⟨h1, h2⟩ := hi
       cases o with
       | enter q =>
         simp only [nestStepG, allBounded, Bool.true_and] at hs
-        by_cases c : s.fp + 1 < maxFrames
-        · simp only [c, decide_true, Bool.not_true] at hs
-          have c2 : s.native + 1 ≤ limit := by omega
-          simp [c2] at hs
-        · simp [c] at hs
-      | leave => simp [nestStepG] at hs
-      | exitDefers => simp [nestStepG] at hs
-      | defersDone => simp [nestStepG] at hs
+        split at hs
+        · cases hs
+        · by_cases c : s.fp + 1 < maxFrames
+          · simp only [c, decide_true, Bool.not_true] at hs
+            have c2 : s.native + 1 ≤ limit := by omega
+            simp [c2] at hs
+          · simp [c] at hs
+      | leave => simp only [nestStepG] at hs; split at hs <;> cases hs
+      | exitDefers => simp only [nestStepG] at hs; split at hs <;> cases hs
+      | defersDone => simp only [nestStepG] at hs; split at hs <;> cases hs
+      | leaveMod => simp only [nestStepG] at hs; split at hs <;> cases hs
 
 /-- … in particular without deferred-call stages: every stack that holds `maxFrames`
     activations is enough for EVERY sequence of calls, callbacks of builtins, host calls and
@@ -427,83 +599,184 @@ theorem C03_partial_native (limit : Nat) (ops : List NOp) :
     the frame array exactly as recursion through the Call opcode is. -/
 theorem native_bounded_by_frames (limit : Nat) (hl : maxFrames ≤ limit) (ops : List NOp)
     (hg : peakOpen 0 ops = 0) (w : String) : nestRun limit Nest.init ops ≠ .killed w := by
-  apply C03_partial_native limit ops Nest.init
-  · exact Nat.zero_le _
-  · unfold Nest.init maxFrames; simp
+  apply nest_peak_bound true limit ops Nest.init
+  · unfold Nest.Framed Nest.init maxFrames; simp
   · show peakOpen 0 ops + maxFrames ≤ limit
     omega
 
-/-- … and under every entry point, with the three recover scopes, such a run is a value or an
-    error for the host — never the death of the process. -/
-theorem nest_contained (limit : Nat) (ops : List NOp) (e : Entry)
-    (hg : peakOpen 0 ops + maxFrames ≤ limit) :
-    (enterNest requiredRecovers e (nestRun limit Nest.init ops)).isKilled = false := by
-  have h := C03_partial_native limit ops Nest.init (Nat.zero_le _)
-    (by unfold Nest.init maxFrames; simp) hg
-  cases hr : nestRun limit Nest.init ops with
-  | ok s => rfl
-  | recovered w =>
-    simp only [enterNest]
-    exact enter_not_killed requiredRecovers (by decide) e (.panics w)
-  | killed w => exact absurd hr (h w)
+/-- the repair changes nothing for nesting that grows the frame index: on every sequence without
+    a deferred-call stage (calls, callbacks of builtins, host calls, imports, their exits) the
+    repaired machine and the pre-fix machine do the same, step by step — the frame array ends
+    such recursion first, with the same recovered index panic as before. -/
+theorem repair_unchanged_without_defer_stages (limit : Nat) (ops : List NOp) :
+    ∀ s : Nest, s.opened = 0 → s.calls ≤ s.fp → s.fp < maxFrames → peakOpen 0 ops = 0 →
+      nestRun limit s ops = preFixNestRun limit s ops := by
+  induction ops with
+  | nil => intro s _ _ _ _; rfl
+  | cons o r ih =>
+    intro s h0 hc hf hp
+    show nestRunG allBounded true limit s (o :: r) = nestRunG allBounded false limit s (o :: r)
+    have hstep : nestStepG allBounded true limit s o = nestStepG allBounded false limit s o := by
+      cases o with
+      | enter q =>
+        have : decide (maxCalls ≤ s.calls) = false := by
+          unfold maxCalls; simp only [decide_eq_false_iff_not]; omega
+        simp [nestStepG, this]
+      | leave => rfl
+      | exitDefers => rfl
+      | defersDone => rfl
+      | leaveMod => rfl
+    simp only [nestRunG, hstep]
+    cases hs : nestStepG allBounded false limit s o with
+    | ok s' =>
+      simp only
+      have hr : peakOpen 0 r = 0 ∧ o ≠ .exitDefers := by
+        cases o with
+        | exitDefers =>
+          simp only [peakOpen] at hp
+          have := peakOpen_ge r (0 + 1)
+          exfalso; omega
+        | defersDone => simp only [peakOpen, Nat.zero_sub] at hp; exact ⟨by omega, by simp⟩
+        | enter q => simp only [peakOpen] at hp; exact ⟨by omega, by simp⟩
+        | leave => simp only [peakOpen] at hp; exact ⟨by omega, by simp⟩
+        | leaveMod => simp only [peakOpen] at hp; exact ⟨by omega, by simp⟩
+      have hs' : s'.opened = 0 ∧ s'.calls ≤ s'.fp ∧ s'.fp < maxFrames := by
+        cases o with
+        | enter q =>
+          simp only [nestStepG, allBounded, Bool.true_and, Bool.false_and] at hs
+          by_cases c : s.fp + 1 < maxFrames
+          · simp only [c, decide_true, Bool.not_true] at hs
+            split at hs
+            · cases hs
+            · split at hs
+              · cases hs
+                refine ⟨h0, ?_, c⟩
+                cases q <;> simp [Reentry.viaCallFunction] <;> omega
+              · cases hs
+          · simp [c] at hs
+        | leave =>
+          simp only [nestStepG] at hs
+          split at hs <;> cases hs
+          · exact ⟨h0, by simp only; omega, by simp only; omega⟩
+          · exact ⟨h0, hc, hf⟩
+        | exitDefers => exact absurd rfl hr.2
+        | defersDone =>
+          simp only [nestStepG] at hs
+          split at hs <;> cases hs
+          · omega
+          · exact ⟨h0, hc, hf⟩
+        | leaveMod =>
+          simp only [nestStepG] at hs
+          split at hs <;> cases hs
+          · exact ⟨h0, by simp only; omega, by simp only; omega⟩
+          · exact ⟨h0, hc, hf⟩
+      exact ih s' hs'.1 hs'.2.1 hs'.2.2 hr.1
+    | recovered w' => rfl
+    | failed w' => rfl
+    | killed w' => rfl
 
-/-- the rounds of a recursion through `defer` alone: the frame index swings between 0 and 1
-    while one native activation is added per round, until the stack limit is passed -/
-theorem deferRounds_kill (limit : Nat) (n : Nat) :
-    ∀ k o, k ≤ limit → limit < k + n →
-      nestRun limit ⟨1, k, o⟩ (deferRounds n) = .killed "stack overflow" := by
+/-! ### recursion through `defer` alone: stopped by the call depth; before the repair, by nothing -/
+
+/-- the rounds of a recursion through `defer` alone on the repaired machine: the frame index
+    swings between 0 and 1, one native activation and one `callFunction` activation are added per
+    round, and the round that finds `maxCalls` of them open is refused -/
+theorem deferRounds_fail (limit : Nat) (n : Nat) :
+    ∀ k o c, o < c → c ≤ maxCalls → k + (maxCalls - c) ≤ limit → maxCalls - c < n →
+      nestRun limit ⟨1, k, o, c⟩ (deferRounds n) = .failed "max call depth exceeded" := by
   induction n with
-  | zero => intro k o h1 h2; omega
+  | zero => intro k o c _ _ _ h; omega
   | succ n ih =>
-    intro k o h1 h2
-    show nestRunG allBounded limit ⟨1, k, o⟩ (.exitDefers :: .enter .deferred :: deferRounds n) = _
+    intro k o c h1 h2 h3 h4
+    show nestRunG allBounded true limit ⟨1, k, o, c⟩ (.exitDefers :: .enter .deferred :: deferRounds n) = _
     have hm : (0 : Nat) + 1 < maxFrames := by unfold maxFrames; omega
-    by_cases c : k + 1 ≤ limit
-    · have := ih (k + 1) (o + 1) c (by omega)
-      simp only [nestRunG, nestStepG, allBounded, Bool.true_and, hm, decide_true, Bool.not_true,
-        Nat.sub_self, c, if_true]
+    by_cases cc : maxCalls ≤ c
+    · simp [nestRunG, nestStepG, Reentry.viaCallFunction, h1, cc]
+    · have hk : k + 1 ≤ limit := by omega
+      have := ih (k + 1) (o + 1) (c + 1) (by omega) (by omega) (by omega) (by omega)
+      simp only [nestRunG, nestStepG, allBounded, Reentry.viaCallFunction, Bool.true_and, h1, if_true,
+        cc, decide_false, Bool.false_eq_true, if_false, Nat.sub_self, hm, decide_true, Bool.not_true, hk]
       simpa [nestRun] using this
-    · simp [nestRunG, nestStepG, allBounded, hm, c]
 
-/-- FULL statement (false): some finite goroutine stack is enough for every sequence. -/
-def C03_full_native : Prop :=
-  ∃ limit, ∀ (ops : List NOp) (w : String), nestRun limit Nest.init ops ≠ .killed w
+/-- `func w(x) { defer w(x+1) }; w(0)` on the repaired machine: on every stack that holds
+    `maxFrames` activations, `maxFrames` or more rounds end with the returned error
+    `max call depth exceeded` — an ordinary evaluation error, not the death of the process. -/
+theorem pure_defer_recursion_fails (limit : Nat) (hl : maxFrames ≤ limit) (n : Nat) (hn : maxFrames ≤ n) :
+    nestRun limit Nest.init (pureDeferRecursion n) = .failed "max call depth exceeded" := by
+  show nestRunG allBounded true limit Nest.init (.enter .callOp :: deferRounds n) = _
+  have hm : (0 : Nat) + 1 < maxFrames := by unfold maxFrames; omega
+  have hz : ¬ maxCalls ≤ 0 := by unfold maxCalls maxFrames; omega
+  have h1 : 0 + 1 ≤ limit := by unfold maxFrames at hl; omega
+  have := deferRounds_fail limit n 1 0 1 (by omega) (by unfold maxCalls maxFrames; omega)
+    (by unfold maxCalls; omega) (by unfold maxCalls; omega)
+  simp only [nestRunG, nestStepG, allBounded, Reentry.viaCallFunction, Bool.true_and, Nest.init, hz,
+    decide_false, Bool.false_eq_true, if_false, hm, decide_true, Bool.not_true, h1, if_true]
+  simpa [nestRun] using this
 
-/-- `func w(x) { defer w(x+1) }; w(0)`: whatever the stack limit, `limit + 1` rounds pass it —
-    the frame index never gets past 1, so the frame array never ends the recursion. -/
-theorem pure_defer_recursion_kills (limit : Nat) :
-    nestRun limit Nest.init (pureDeferRecursion (limit + 1)) = .killed "stack overflow" := by
-  show nestRunG allBounded limit Nest.init (.enter .callOp :: deferRounds (limit + 1)) = _
+/-- HISTORICAL — the rounds of a recursion through `defer` alone on the pre-fix machine: the
+    frame index swings between 0 and 1 while one native activation is added per round, until
+    the stack limit is passed -/
+theorem preFix_deferRounds_kill (limit : Nat) (n : Nat) :
+    ∀ k o c, o < c → k ≤ limit → limit < k + n →
+      preFixNestRun limit ⟨1, k, o, c⟩ (deferRounds n) = .killed "stack overflow" := by
+  induction n with
+  | zero => intro k o c _ h1 h2; omega
+  | succ n ih =>
+    intro k o c h0 h1 h2
+    show nestRunG allBounded false limit ⟨1, k, o, c⟩ (.exitDefers :: .enter .deferred :: deferRounds n) = _
+    have hm : (0 : Nat) + 1 < maxFrames := by unfold maxFrames; omega
+    by_cases cc : k + 1 ≤ limit
+    · have := ih (k + 1) (o + 1) (c + 1) (by omega) cc (by omega)
+      simp only [nestRunG, nestStepG, allBounded, Reentry.viaCallFunction, Bool.true_and, Bool.false_and,
+        h0, if_true, Bool.false_eq_true, if_false, hm, decide_true, Bool.not_true, Nat.sub_self, cc]
+      simpa [preFixNestRun] using this
+    · simp [nestRunG, nestStepG, allBounded, h0, hm, cc]
+
+/-- HISTORICAL (`C03_fixed_…`: the defect `C03-defer-recursion-stack-overflow` as it was) —
+    `func w(x) { defer w(x+1) }; w(0)` on the pre-fix machine: whatever the stack limit,
+    `limit + 1` rounds pass it — the frame index never gets past 1, so the frame array never
+    ends the recursion, and nothing else did. -/
+theorem C03_fixed_pure_defer_recursion_killed (limit : Nat) :
+    preFixNestRun limit Nest.init (pureDeferRecursion (limit + 1)) = .killed "stack overflow" := by
+  show nestRunG allBounded false limit Nest.init (.enter .callOp :: deferRounds (limit + 1)) = _
   have hm : (0 : Nat) + 1 < maxFrames := by unfold maxFrames; omega
   by_cases c : 0 + 1 ≤ limit
-  · have := deferRounds_kill limit (limit + 1) 1 0 c (by omega)
-    simp only [nestRunG, nestStepG, allBounded, Bool.true_and, Nest.init, hm, decide_true,
-      Bool.not_true, c, if_true]
-    simpa [nestRun] using this
+  · have := preFix_deferRounds_kill limit (limit + 1) 1 0 1 (by omega) c (by omega)
+    simp only [nestRunG, nestStepG, allBounded, Reentry.viaCallFunction, Bool.true_and, Bool.false_and,
+      Nest.init, Bool.false_eq_true, if_false, hm, decide_true, Bool.not_true, c, if_true]
+    simpa [preFixNestRun] using this
   · simp [nestRunG, nestStepG, allBounded, Nest.init, hm, c]
 
-/-- COUNTEREXAMPLE (finding `C03-defer-recursion-stack-overflow`): no finite stack is enough. -/
-theorem C03_counterexample_native : ¬ C03_full_native := by
+/-- HISTORICAL — before the repair the full statement was false: no finite stack was enough. -/
+theorem C03_fixed_native_was_unbounded :
+    ¬ ∃ limit, ∀ (ops : List NOp) (w : String), preFixNestRun limit Nest.init ops ≠ .killed w := by
   intro ⟨limit, h⟩
-  exact h _ _ (pure_defer_recursion_kills limit)
+  exact h _ _ (C03_fixed_pure_defer_recursion_killed limit)
 
-/-- every way of entering compiled code needs the bound of the frame array: if entering
-    through `r` does not index the fixed array (say the frames become a slice that grows, and
-    the depth is tested on another path only), then for EVERY stack limit `limit + 1` nested
-    entries through `r` end the process. -/
-theorem each_reentry_needs_bound (bounded : Reentry → Bool) (r : Reentry) (hr : bounded r = false)
-    (limit : Nat) :
+/-- HISTORICAL — the strongest true statement before the repair (was `C03_partial_native`): the
+    pre-fix machine is never killed when the stack allows `maxFrames + peakOpen`. -/
+theorem C03_preFix_partial_native (limit : Nat) (ops : List NOp) :
+    ∀ s : Nest, s.Framed → peakOpen s.opened ops + maxFrames ≤ limit →
+      ∀ w, preFixNestRun limit s ops ≠ .killed w :=
+  nest_peak_bound false limit ops
+
+/-- every way of entering compiled code needs one of the two bounds: if entering through `r`
+    does not index the fixed array (say the frames become a slice that grows, and the depth is
+    tested on another path only) and does not pass the depth test of `callFunction` either (a
+    module body; or the test is gone), then for EVERY stack limit `limit + 1` nested entries
+    through `r` end the process. -/
+theorem each_reentry_needs_bound (bounded : Reentry → Bool) (checked : Bool) (r : Reentry)
+    (hr : bounded r = false) (hc : (checked && r.viaCallFunction) = false) (limit : Nat) :
     ∀ s : Nest, s.native ≤ limit → ∀ n, limit < s.native + n →
-      nestRunG bounded limit s (List.replicate n (.enter r)) = .killed "stack overflow" := by
+      nestRunG bounded checked limit s (List.replicate n (.enter r)) = .killed "stack overflow" := by
   intro s hs n
   induction n generalizing s with
   | zero => intro h; omega
   | succ n ih =>
     intro h
-    simp only [List.replicate, nestRunG, nestStepG, hr, Bool.false_and]
+    simp only [List.replicate, nestRunG, nestStepG, hr, hc, Bool.false_and]
     by_cases c : s.native + 1 ≤ limit
     · simp only [Bool.false_eq_true, if_false, c, if_true]
-      exact ih ⟨s.fp + 1, s.native + 1, s.opened⟩ c (by simp only; omega)
+      exact ih ⟨s.fp + 1, s.native + 1, s.opened, _⟩ c (by simp only; omega)
     · simp [c]
 
 -- recursion through a callback is stopped at the end of the array, like recursion through Call
@@ -511,16 +784,28 @@ set_option maxRecDepth 20000 in
 example : nestRun 100000 Nest.init (List.replicate 1024 (.enter .callback))
     = .recovered "index out of range (frames)" := by decide
 example : nestRun 5000 Nest.init (List.replicate 3 (.enter .callback) ++ List.replicate 3 .leave)
-    = .ok ⟨0, 0, 0⟩ := by decide
+    = .ok ⟨0, 0, 0, 0⟩ := by decide
 example : peakOpen 0 (List.replicate 3 (.enter .callback) ++ List.replicate 3 .leave) = 0 := by decide
--- a function with a deferred call, called in a loop: one stage open at a time
+-- a function with a deferred call, called in a loop: one stage open at a time, the counter returns to 0
 example : peakOpen 0 [.enter .callOp, .exitDefers, .enter .deferred, .leave, .defersDone,
     .enter .callOp, .exitDefers, .enter .deferred, .leave, .defersDone] = 1 := by decide
+example : nestRun 5000 Nest.init [.enter .callOp, .exitDefers, .enter .deferred, .leave, .defersDone,
+    .enter .callOp, .exitDefers, .enter .deferred, .leave, .defersDone] = .ok ⟨0, 0, 0, 0⟩ := by decide
+-- an import with a call inside, both ended
+example : nestRun 5000 Nest.init [.enter .importMod, .enter .callOp, .leave, .leaveMod] = .ok ⟨0, 0, 0, 0⟩ := by decide
 example : peakOpen 0 (pureDeferRecursion 7) = 7 := by decide
-example : nestRun 10 Nest.init (pureDeferRecursion 11) = .killed "stack overflow" := by decide
--- `func a(x) { defer b(x) }; func b(x) { a(x+1) }`: one frame per round, the array ends it
-example : nestRun 10 ⟨1022, 0, 0⟩ [.enter .callOp, .exitDefers, .enter .deferred, .enter .callOp]
+-- the same recursion on the two machines (small stack): refused / killed
+example : preFixNestRun 10 Nest.init (pureDeferRecursion 11) = .killed "stack overflow" := by decide
+example : nestRun 5000 ⟨1, 1018, 1017, 1018⟩ (deferRounds 7) = .failed "max call depth exceeded" := by decide
+-- `func a(x) { defer b(x) }; func b(x) { a(x+1) }`: one frame and two calls per round — near the
+-- end of the array it is the array that ends it, after 512 rounds from the start the call depth
+example : nestRun 10 ⟨1022, 0, 0, 0⟩ [.enter .callOp, .exitDefers, .enter .deferred, .enter .callOp]
     = .recovered "index out of range (frames)" := by decide
+example : nestRun 10 ⟨511, 0, 511, 1022⟩ [.enter .callOp, .exitDefers, .enter .deferred, .enter .callOp]
+    = .failed "max call depth exceeded" := by decide
+-- the hypotheses of the theorems are satisfiable by non-trivial states
+example : (⟨511, 1022, 511, 1022⟩ : Nest).Inv := by
+  unfold Nest.Inv Nest.Framed maxCalls maxFrames; simp
 
 /-! ## The importer's mutex -/
 
